@@ -41,3 +41,7 @@ package oc
 //@ func setDefaultNeighborConfigValuesWithViper
 //@   claims at-call
 //@   at-call v.IsSet("neighbor.timers.config.keepalive-interval") requires called(validateHoldTime)
+//@   at-call validateHoldTime( requires arg0 == n.Timers.Config.HoldTime
+//@ func validateHoldTime
+//@   claims post
+//@   ensures result == nil <==> (t == 0.0 || (t >= 3.0 && t <= 65535.0))
